@@ -173,6 +173,23 @@ def _names_sites(model: Model) -> Dict[str, Tuple[FuncInfo, Dict[str, Set[str]]]
         else:
             preds[k] = lo_k
     sites["ElementDG.__init__"] = (fn, preds)
+    # the DG wrapper's own list has one name per *local basis function*
+    # (all of them are interior DOFs of the wrapper): its terms must come in
+    # the order of the local functions, not in the order of the name list
+    # they are sliced from
+    term_order = []
+    for t in terms:
+        sub = t.right if isinstance(t, ast.BinOp) and isinstance(
+            t.op, ast.Mult) else t
+        sl = sub.slice
+        if isinstance(sl, ast.Call) and src(sl.func) == "slice":
+            lo, hi = sl.args[0], sl.args[1]
+        else:
+            lo, hi = sl.lower, sl.upper
+        lo_k = _kinds_in(lo) if lo is not None else set()
+        own = (_kinds_in(hi) - lo_k) if hi is not None else {"interior"}
+        term_order.append(next(iter(own)))
+    sites["ElementDG.__init__#terms"] = (fn, tuple(term_order))
     # 5. ElementComposite.__init__
     fn = model.func("skfem.element.element_composite",
                     "ElementComposite.__init__")
@@ -300,6 +317,20 @@ def _r1(model, rep, dofs_order):
                      f"uses the entity order {o} while Element._bfun_counts "
                      f"(and the local basis functions) use {ref}", fn.lineno)
     names = _names_sites(model)
+    dgfn, dgterms = names.pop("ElementDG.__init__#terms")
+    cons = "local-order:ElementDG.__init__:names-per-local-function"
+    if tuple(dgterms) == ref:
+        rep.ok(R1, cons, f"one name per local function, in the local basis "
+                         f"order {ref}")
+    else:
+        rep.fail(R1, dgfn.path, dgfn.short(), cons,
+                 f"ElementDG lists one name per local basis function in the "
+                 f"order {tuple(dgterms)}, the local functions it forwards "
+                 f"run {ref}: for a wrapped element with edge and facet "
+                 f"DOFs a name filter returns DOFs of another component "
+                 f"(ElementDG(ElementTetP2() * ElementTetRT1()): "
+                 f"all('u^n^2') returns 160 DOFs, none of them an RT DOF)",
+                 dgfn.lineno)
     orders = {n: _order_from_preds(p) for n, (f, p) in names.items()}
     from collections import Counter
     common = Counter(orders.values()).most_common(1)[0][0]
@@ -740,6 +771,37 @@ def _condensed_tables(model, rep):
                  f": its interior DOFs carry the names of vertex DOFs "
                  f"(get_dofs(...).all('NA') finds nothing)",
                  (d or fn).lineno)
+    # the outer part (interior count zeroed) of a vector element: its
+    # wrapped element is the outer part of the wrapped element (the
+    # composite branch zeroes the interior counts of its components, whose
+    # outer functions come first anyway)
+    eo_names = {src(n.targets[0].value) for n in walk_no_nested(fn.node)
+                if isinstance(n, ast.Assign) and isinstance(
+                    n.targets[0], ast.Attribute)
+                and n.targets[0].attr == "interior_dofs" and isinstance(
+                    n.value, ast.Constant) and n.value.value == 0
+                and isinstance(n.targets[0].value, ast.Name)}
+    if len(eo_names) != 1:
+        raise AnalysisError("Element.condensed: outer copy not identified")
+    eo = eo_names.pop()
+    d = [n for n in walk_no_nested(fn.node) if isinstance(n, ast.Assign)
+         and src(n.targets[0]) == f"{eo}.elem"]
+    oke = bool(d) and any(
+        isinstance(x, ast.Subscript) and isinstance(x.value, ast.Call)
+        and isinstance(x.value.func, ast.Attribute)
+        and x.value.func.attr == "condensed" and src(x.slice) == "1"
+        for x in ast.walk(d[0].value))
+    cons = "Element.condensed:components[outer elem]"
+    if oke:
+        rep.ok(R5, cons, f"{eo}.elem is the outer part of the wrapped "
+                         f"element")
+    else:
+        rep.fail(R5, fn.path, "Element.condensed", cons,
+                 f"the outer part of a vector element keeps the whole "
+                 f"wrapped element (interior DOFs included): "
+                 f"Basis(m, eo).split(x) pairs 9 coefficients with a "
+                 f"component basis of 17 DOFs (ElementVector("
+                 f"ElementTriMini()))", (d[0] if d else fn).lineno)
     for attr, what in (("elems", "tuple of the components' interior parts"),
                        ("elem", "interior part of the wrapped element")):
         d = stores.get(attr)
@@ -1006,6 +1068,14 @@ _FACET_BLK = """        if counts[2] > 0:
             ns += sum([tmp for j in range(int(counts[2] / len(tmp)))], [])
 """
 MUTANTS = [
+    ("DG wrapper lists facet names before edge names again",
+     ("skfem/element/element_dg.py",
+      "            + elem.refdom.nedges * elem.dofnames[slice((elem.nodal_dofs"
+      "\n                                                        + "
+      "elem.facet_dofs),\n                                                "
+      "       (elem.nodal_dofs\n                                          "
+      "              + elem.facet_dofs\n                                   "
+      "                     + elem.edge_dofs))]\n", ""), "C04-R1"),
     ("interior part of a condensed element keeps the whole location table",
      ("skfem/element/element.py",
       "            ei.doflocs = self.doflocs[self._bfun_counts()[:3].sum():]",
